@@ -145,7 +145,8 @@ def daIn? (kv : List (String × String)) : Option DaIn := do
     | some "none" => pure .none
     | _ => none
   pure { authzOk := (← b "authz"), authzMissing := ((lookup kv "authzmissing").bind bool?).getD false,
-         authzOtherAccount := ((lookup kv "azother").bind bool?).getD false, jsonOk := (← b "json"), errField := (← b "errf"), b64Ok := (← b "b64"),
+         authzOtherAccount := ((lookup kv "azother").bind bool?).getD false,
+         authzNotOwn := ((lookup kv "aznotown").bind bool?).getD false, jsonOk := (← b "json"), errField := (← b "errf"), b64Ok := (← b "b64"),
          emptyObj := (← b "empty"), cborWellformed := (← b "wf"), cborOk := (← b "cbor"),
          format, enabled := (← b "en"), facts, fpNonEmpty := (← b "fpne"), authzDbOk := (← b "azdb") }
 
